@@ -787,3 +787,524 @@ Proof.
     + inversion Hs; subst. eapply srv_inv_same; [|exact H]. repeat split; reflexivity.
     + inversion Hs; subst. eapply srv_inv_same; [|exact H]. repeat split; reflexivity.
 Qed.
+
+(* ---------------------------------------------------------------- *)
+(* C07: with recovery on both goroutine kinds the process never dies   *)
+
+Lemma conn_step_no_die cfg s c c' e : recovery cfg = true -> conn_step cfg s c = Some (c', e) -> e <> EDie.
+Proof.
+  intros Hr H. unfold conn_step in H.
+  destruct (pc c) as [| | |k sc|todo|].
+  - inversion H; discriminate.
+  - destruct (cancelled s); [destruct (can_write c); [|discriminate]|]; inversion H; discriminate.
+  - destruct (input c) as [|it rest]; [destruct (eof c || interrupted c); [|discriminate]; inversion H; discriminate|].
+    destruct it as [k sc| |]; [destruct k; [| |destruct (has_unbind_route cfg)]|..]; inversion H; discriminate.
+  - destruct sc as [|h rest]; [destruct k; inversion H; discriminate|].
+    destruct (negb (hstep_enabled s c h)); [discriminate|]. rewrite Hr in H.
+    destruct h; inversion H; discriminate.
+  - destruct todo as [|t rest]; [inversion H; discriminate|].
+    destruct t; [|destruct (inflight c =? 0); [|discriminate]| |destruct (negb (has_onclose cfg)); [|destruct (onclose_held s); [discriminate|]]];
+      inversion H; discriminate.
+  - discriminate.
+Qed.
+
+Lemma handler_step_no_die cfg s c r c' e : recovery cfg = true -> handler_rec cfg = true ->
+  handler_step cfg s c r = Some (c', e) -> e <> EDie.
+Proof.
+  intros Hr Hh H. unfold handler_step in H. destruct (take_handler r (hs c)) as [[sc others]|]; [|discriminate].
+  destruct sc as [|h rest]; [inversion H; discriminate|].
+  destruct (negb (hstep_enabled s c h)); [discriminate|]. rewrite Hr, Hh in H.
+  destruct h; inversion H; discriminate.
+Qed.
+
+Theorem alive_reachable cfg s : recovery cfg = true -> handler_rec cfg = true -> reachable cfg s -> alive s = true.
+Proof.
+  intros Hr Hh Hre. revert s Hre. apply (invariant_reachable cfg (fun s => alive s = true)); [reflexivity|].
+  intros s0 l s1 _ Ha Hs. unfold step in Hs. rewrite Ha in Hs. cbn [negb] in Hs.
+  destruct l as [|si|ci|ci ri|v o| | |ci it|ci|ci b|b|b|].
+  - unfold run_step in Hs. destruct (run s0) as [|valid ok| | | |e]; try discriminate.
+    + destruct (negb valid); [inversion Hs; subst; first [exact Ha|reflexivity]|]. destruct (stop_in_progress s0); [discriminate|].
+      destruct ok; inversion Hs; subst; first [exact Ha|reflexivity].
+    + destruct (cancelled s0); [destruct (close_on_cancel cfg)|]; inversion Hs; subst; first [exact Ha|reflexivity].
+    + destruct (lst s0); try (inversion Hs; subst; first [exact Ha|reflexivity]).
+      destruct (accept_err s0); [inversion Hs; subst; first [exact Ha|reflexivity]|].
+      destruct (backlog s0); [discriminate|inversion Hs; subst; first [exact Ha|reflexivity]].
+    + inversion Hs; subst; first [exact Ha|reflexivity].
+  - unfold stop_step in Hs. destruct (nth_error (stops s0) si) as [p|]; [|discriminate].
+    destruct p; try discriminate.
+    + destruct (lst s0); inversion Hs; subst; first [exact Ha|reflexivity].
+    + inversion Hs; subst; first [exact Ha|reflexivity].
+    + inversion Hs; subst; first [exact Ha|reflexivity].
+    + destruct (connwg s0 =? 0); [inversion Hs; subst; first [exact Ha|reflexivity]|discriminate].
+  - destruct (with_conn_frame _ _ _ _ Hs) as [_ (c & c' & e & _ & Hf & _ & _ & Hal)].
+    rewrite Hal. pose proof (conn_step_no_die _ _ _ _ _ Hr Hf). destruct e; try first [exact Ha|reflexivity]. congruence.
+  - destruct (with_conn_frame _ _ _ _ Hs) as [_ (c & c' & e & _ & Hf & _ & _ & Hal)].
+    rewrite Hal. pose proof (handler_step_no_die _ _ _ _ _ _ Hr Hh Hf). destruct e; try first [exact Ha|reflexivity]. congruence.
+  - destruct (run s0); try discriminate. inversion Hs; subst; first [exact Ha|reflexivity].
+  - inversion Hs; subst; first [exact Ha|reflexivity].
+  - destruct (lst s0); try discriminate. inversion Hs; subst; first [exact Ha|reflexivity].
+  - destruct (upd_conn_env_frame _ _ _ _ Hs) as (_ & _ & Hal & _). rewrite Hal. first [exact Ha|reflexivity].
+  - destruct (upd_conn_env_frame _ _ _ _ Hs) as (_ & _ & Hal & _). rewrite Hal. first [exact Ha|reflexivity].
+  - destruct (upd_conn_env_frame _ _ _ _ Hs) as (_ & _ & Hal & _). rewrite Hal. first [exact Ha|reflexivity].
+  - inversion Hs; subst; first [exact Ha|reflexivity].
+  - inversion Hs; subst; first [exact Ha|reflexivity].
+  - inversion Hs; subst; first [exact Ha|reflexivity].
+Qed.
+
+(* the pinned configuration: one panicking handler kills the process *)
+Lemma alive_pinned_refuted :
+  exists s, run_labels pinned_cfg init
+              [ECallRun true true; LRun; LRun; EConnect; LRun; LRun; LConn 0; LConn 0;
+               ESend 0 (IReq KNormal [HPanic]); LConn 0; LHandler 0 1] = Some s /\ alive s = false.
+Proof. eexists. split; [vm_compute; reflexivity|reflexivity]. Qed.
+
+(* a fault on one connection leaves every other connection's record alone *)
+Lemma with_conn_others s i f s' : with_conn s i f = Some s' ->
+  forall j, j <> i -> nth_error (conns s') j = nth_error (conns s) j.
+Proof.
+  intros H j Hj. destruct (with_conn_frame _ _ _ _ H) as [_ (c & c' & e & _ & _ & Hc & _)].
+  rewrite Hc. apply nth_update_nth_neq. congruence.
+Qed.
+
+(* ---------------------------------------------------------------- *)
+(* the wait group: connWg counts the connections whose goroutine has   *)
+(* not yet released it (plus the one being accepted)                   *)
+
+Definition not_done (c : conn) : bool := negb (wgdone c).
+Definition pending (cs : list conn) : nat := length (List.filter not_done cs).
+Arguments pending : simpl never.
+
+Definition wg_inv (cfg : config) (s : state) : Prop :=
+  connwg s = pending (conns s) +
+             (if add_before_accept cfg then match run s with RAcceptWait | RAccepted => 1 | _ => 0 end else 0).
+
+Lemma pending_app cs c : pending (cs ++ [c]) = pending cs + (if not_done c then 1 else 0).
+Proof. unfold pending. rewrite filter_app, app_length. cbn. destruct (not_done c); reflexivity. Qed.
+
+Lemma pending_update cs i c c' : nth_error cs i = Some c -> wgdone c' = wgdone c ->
+  pending (update_nth i (fun _ => c') cs) = pending cs.
+Proof.
+  revert i; induction cs as [|x r IH]; intros [|i] Hn Hw; cbn in *; try discriminate.
+  - inversion Hn; subst. unfold pending, not_done. cbn. rewrite Hw. destruct (negb (wgdone c)); reflexivity.
+  - unfold pending in *. cbn. destruct (not_done x); cbn; rewrite (IH i Hn Hw); reflexivity.
+Qed.
+
+Lemma pending_update_done cs i c c' : nth_error cs i = Some c -> wgdone c = false -> wgdone c' = true ->
+  pending cs = S (pending (update_nth i (fun _ => c') cs)).
+Proof.
+  revert i; induction cs as [|x r IH]; intros [|i] Hn Hw Hw'; cbn in *; try discriminate.
+  - inversion Hn; subst. unfold pending, not_done. cbn. rewrite Hw, Hw'. reflexivity.
+  - unfold pending in *. cbn. destruct (not_done x); cbn; rewrite (IH i Hn Hw Hw'); reflexivity.
+Qed.
+
+Lemma pending_update_f cs i (f : conn -> conn) : (forall x, wgdone (f x) = wgdone x) ->
+  pending (update_nth i f cs) = pending cs.
+Proof.
+  intros Hf. revert i; induction cs as [|x r IH]; intros [|i]; cbn; auto.
+  - unfold pending, not_done. cbn. rewrite Hf. destruct (negb (wgdone x)); reflexivity.
+  - unfold pending in *. cbn. destruct (not_done x); cbn; rewrite IH; reflexivity.
+Qed.
+
+Lemma pending_map_intr cs : pending (interrupt_all cs) = pending cs.
+Proof.
+  unfold pending, interrupt_all. induction cs as [|x r IH]; [reflexivity|].
+  cbn [map List.filter]. replace (not_done (interrupt x)) with (not_done x) by reflexivity.
+  destruct (not_done x); cbn [length]; rewrite IH; reflexivity.
+Qed.
+
+(* how a connection step relates to its wgdone flag and the effect *)
+Lemma conn_step_wg cfg s c c' e : td_inv cfg c -> conn_step cfg s c = Some (c', e) ->
+  (e = EWgDone /\ wgdone c = false /\ wgdone c' = true) \/ (e <> EWgDone /\ wgdone c' = wgdone c).
+Proof.
+  intros Htd H. unfold conn_step in H.
+  destruct (pc c) as [| | |k sc|todo|] eqn:Epc.
+  - inversion H; subst. right. split; [discriminate|reflexivity].
+  - destruct (cancelled s); [destruct (can_write c); [|discriminate]|]; inversion H; subst; right; split; [discriminate|reflexivity|discriminate|reflexivity].
+  - destruct (input c) as [|it rest]; [destruct (eof c || interrupted c); [|discriminate]; inversion H; subst; right; split; [discriminate|reflexivity]|].
+    destruct it as [k sc| |]; [destruct k; [| |destruct (has_unbind_route cfg)]|..]; inversion H; subst; right; split; try discriminate; reflexivity.
+  - destruct sc as [|h rest]; [destruct k; inversion H; subst; right; split; try discriminate; reflexivity|].
+    destruct (negb (hstep_enabled s c h)); [discriminate|].
+    destruct h; [|destruct (recovery cfg)|..]; inversion H; subst; right; split; try discriminate; reflexivity.
+  - destruct todo as [|t rest]; [inversion H; subst; right; split; [discriminate|reflexivity]|].
+    destruct t.
+    + inversion H; subst. left. split; [reflexivity|]. split; [|reflexivity].
+      (* TWgDone had not been executed: it occurs once in the list *)
+      unfold td_inv, done_of in Htd. rewrite Epc in Htd. destruct Htd as ((Hsuf & Hlen) & _ & _ & Hwg & _).
+      rewrite Hwg. destruct (teardown_of_cases cfg) as [E|E]; rewrite E in *; cbn [length] in *;
+        destruct rest as [|a [|b [|c0 [|d r]]]]; cbn in *; try lia; inversion Hsuf; reflexivity.
+    + destruct (inflight c =? 0); [|discriminate]. inversion H; subst. right. split; [discriminate|reflexivity].
+    + inversion H; subst. right. split; [discriminate|reflexivity].
+    + destruct (negb (has_onclose cfg)); [inversion H; subst; right; split; [discriminate|reflexivity]|].
+      destruct (onclose_held s); [discriminate|]. inversion H; subst. right. split; [discriminate|reflexivity].
+  - discriminate.
+Qed.
+
+Lemma handler_step_wg cfg s c r c' e : handler_step cfg s c r = Some (c', e) -> e <> EWgDone /\ wgdone c' = wgdone c.
+Proof.
+  unfold handler_step. intros H. destruct (take_handler r (hs c)) as [[sc others]|]; [|discriminate].
+  destruct sc as [|h rest]; [inversion H; subst; split; [discriminate|reflexivity]|].
+  destruct (negb (hstep_enabled s c h)); [discriminate|].
+  destruct h; [|destruct (recovery cfg && handler_rec cfg)|..]; inversion H; subst; split; try discriminate; reflexivity.
+Qed.
+
+Theorem wg_inv_reachable cfg s : reachable cfg s -> wg_inv cfg s.
+Proof.
+  revert s. apply (invariant_reachable cfg (wg_inv cfg)).
+  - unfold wg_inv; cbn. destruct (add_before_accept cfg); reflexivity.
+  - intros s0 l s1 Hr0 H Hs. pose proof (td_inv_reachable cfg s0 Hr0) as Htd.
+    unfold step in Hs. destruct (negb (alive s0)); [discriminate|].
+    unfold wg_inv in *.
+    destruct l as [|si|ci|ci ri|v o| | |ci it|ci|ci b|b|b|].
+    + unfold run_step in Hs. destruct (run s0) as [|valid ok| | | |e] eqn:Er; try discriminate.
+      * destruct (negb valid); [inversion Hs; subst; cbn; rewrite H; destruct (add_before_accept cfg); reflexivity|].
+        destruct (stop_in_progress s0); [discriminate|].
+        destruct ok; inversion Hs; subst; cbn; rewrite H; destruct (add_before_accept cfg); reflexivity.
+      * destruct (cancelled s0); [destruct (close_on_cancel cfg)|]; inversion Hs; subst; cbn; rewrite H;
+          destruct (add_before_accept cfg); lia.
+      * destruct (lst s0); try (inversion Hs; subst; cbn; rewrite H; destruct (add_before_accept cfg); cbn; lia).
+        destruct (accept_err s0); [inversion Hs; subst; cbn; rewrite H; destruct (add_before_accept cfg); cbn; lia|].
+        destruct (backlog s0); [discriminate|inversion Hs; subst; cbn; rewrite H; destruct (add_before_accept cfg); reflexivity].
+      * inversion Hs; subst; cbn. rewrite pending_app. unfold not_done. cbn. rewrite H.
+        destruct (add_before_accept cfg); lia.
+    + unfold stop_step in Hs. destruct (nth_error (stops s0) si) as [p|]; [|discriminate].
+      destruct p; try discriminate.
+      * destruct (lst s0); inversion Hs; subst; cbn; exact H.
+      * inversion Hs; subst; cbn; exact H.
+      * inversion Hs; subst; cbn. rewrite pending_map_intr. exact H.
+      * destruct (connwg s0 =? 0); [inversion Hs; subst; cbn; exact H|discriminate].
+    + destruct (with_conn_frame _ _ _ _ Hs) as [(_ & _ & _ & _ & Hrun & _) (c & c' & e & Hn & Hf & Hc & Hw & _)].
+      rewrite Hw, Hc, Hrun.
+      assert (td_inv cfg c) as Htc by (rewrite Forall_forall in Htd; apply Htd; eapply nth_error_In; eauto).
+      destruct (conn_step_wg _ _ _ _ _ Htc Hf) as [(-> & Hw0 & Hw1)|(Hne & Hweq)].
+      * rewrite H. rewrite (pending_update_done _ _ _ _ Hn Hw0 Hw1). cbn. reflexivity.
+      * rewrite (pending_update _ _ _ _ Hn Hweq). destruct e; try exact H. congruence.
+    + destruct (with_conn_frame _ _ _ _ Hs) as [(_ & _ & _ & _ & Hrun & _) (c & c' & e & Hn & Hf & Hc & Hw & _)].
+      rewrite Hw, Hc, Hrun. destruct (handler_step_wg _ _ _ _ _ _ Hf) as [Hne Hweq].
+      rewrite (pending_update _ _ _ _ Hn Hweq). destruct e; try exact H. congruence.
+    + destruct (run s0) eqn:Er; try discriminate. inversion Hs; subst; cbn. rewrite H.
+      destruct (add_before_accept cfg); reflexivity.
+    + inversion Hs; subst; cbn; exact H.
+    + destruct (lst s0); try discriminate. inversion Hs; subst; cbn; exact H.
+    + destruct (upd_conn_env_frame _ _ _ _ Hs) as ((_ & _ & _ & _ & Hrun & _) & Hw & _ & Hc).
+      rewrite Hw, Hc, Hrun, pending_update_f by reflexivity. exact H.
+    + destruct (upd_conn_env_frame _ _ _ _ Hs) as ((_ & _ & _ & _ & Hrun & _) & Hw & _ & Hc).
+      rewrite Hw, Hc, Hrun, pending_update_f by reflexivity. exact H.
+    + destruct (upd_conn_env_frame _ _ _ _ Hs) as ((_ & _ & _ & _ & Hrun & _) & Hw & _ & Hc).
+      rewrite Hw, Hc, Hrun, pending_update_f by reflexivity. exact H.
+    + inversion Hs; subst; cbn; exact H.
+    + inversion Hs; subst; cbn; exact H.
+    + inversion Hs; subst; cbn; exact H.
+Qed.
+
+(* ---------------------------------------------------------------- *)
+(* once a Stop call has returned: cancelled for good, wait group at 0  *)
+
+Definition is_ret (p : spc) : bool := match p with SRet => true | _ => false end.
+Definition stopped (s : state) : bool := existsb is_ret (stops s).
+
+Definition stopped_inv (s : state) : Prop := stopped s = true -> cancelled s = true /\ connwg s = 0.
+
+Theorem stopped_inv_reachable cfg s : add_before_accept cfg = true -> reachable cfg s -> stopped_inv s.
+Proof.
+  intros Haba. revert s. apply (invariant_reachable cfg stopped_inv).
+  - intros H. discriminate.
+  - intros s0 l s1 Hr0 H Hs. pose proof (srv_inv_reachable cfg s0 Hr0) as Hsrv.
+    destruct Hsrv as (_ & _ & _ & _ & _ & _ & _ & _ & _ & _ & _ & K3).
+    unfold step in Hs. destruct (negb (alive s0)); [discriminate|].
+    unfold stopped_inv, stopped in *.
+    destruct l as [|si|ci|ci ri|v o| | |ci it|ci|ci b|b|b|].
+    + unfold run_step in Hs. rewrite Haba in Hs. destruct (run s0) as [|valid ok| | | |e] eqn:Er; try discriminate.
+      * destruct (negb valid); [inversion Hs; subst; cbn; exact H|].
+        destruct (stop_in_progress s0); [discriminate|]. destruct ok; inversion Hs; subst; cbn; exact H.
+      * destruct (cancelled s0) eqn:Ec.
+        -- destruct (close_on_cancel cfg); inversion Hs; subst; cbn; intros Hst; specialize (H Hst); tauto.
+        -- inversion Hs; subst; cbn. intros Hst. specialize (H Hst). destruct H; congruence.
+      * destruct (lst s0); try (inversion Hs; subst; cbn; intros Hst; destruct (H Hst) as [Hc Hw]; rewrite Hw; auto).
+        destruct (accept_err s0); [inversion Hs; subst; cbn; intros Hst; destruct (H Hst) as [Hc Hw]; rewrite Hw; auto|].
+        destruct (backlog s0); [discriminate|inversion Hs; subst; cbn; exact H].
+      * inversion Hs; subst; cbn. exact H.
+    + unfold stop_step in Hs. destruct (nth_error (stops s0) si) as [p|] eqn:En; [|discriminate].
+      destruct p; try discriminate.
+      * destruct (lst s0); inversion Hs; subst; cbn; intros Hst;
+          (destruct (existsb_update_nth _ _ _ _ _ En Hst) as [G|G]; [discriminate|exact (H G)]).
+      * inversion Hs; subst; cbn. intros Hst.
+        destruct (existsb_update_nth _ _ _ _ _ En Hst) as [G|G]; [destruct (stop_interrupts cfg); discriminate|].
+        destruct (H G). auto.
+      * inversion Hs; subst; cbn. intros Hst.
+        destruct (existsb_update_nth _ _ _ _ _ En Hst) as [G|G]; [discriminate|exact (H G)].
+      * destruct (connwg s0 =? 0) eqn:E0; [|discriminate]. apply Nat.eqb_eq in E0.
+        inversion Hs; subst; cbn. intros _. split; [|exact E0].
+        apply K3. eapply existsb_nth; [exact En|reflexivity].
+    + destruct (with_conn_frame _ _ _ _ Hs) as [(_ & _ & _ & Hc & _ & Hst & _) (c & c' & e & _ & _ & _ & Hw & _)].
+      rewrite Hc, Hst, Hw. intros Hx. destruct (H Hx) as [A B]. rewrite B. split; [exact A|destruct e; reflexivity].
+    + destruct (with_conn_frame _ _ _ _ Hs) as [(_ & _ & _ & Hc & _ & Hst & _) (c & c' & e & _ & _ & _ & Hw & _)].
+      rewrite Hc, Hst, Hw. intros Hx. destruct (H Hx) as [A B]. rewrite B. split; [exact A|destruct e; reflexivity].
+    + destruct (run s0); try discriminate. inversion Hs; subst; cbn; exact H.
+    + inversion Hs; subst; cbn. intros Hst. rewrite existsb_app in Hst. cbn in Hst. rewrite orb_false_r in Hst. exact (H Hst).
+    + destruct (lst s0); try discriminate. inversion Hs; subst; cbn; exact H.
+    + destruct (upd_conn_env_frame _ _ _ _ Hs) as ((_ & _ & _ & Hc & _ & Hst & _) & Hw & _). rewrite Hc, Hst, Hw. exact H.
+    + destruct (upd_conn_env_frame _ _ _ _ Hs) as ((_ & _ & _ & Hc & _ & Hst & _) & Hw & _). rewrite Hc, Hst, Hw. exact H.
+    + destruct (upd_conn_env_frame _ _ _ _ Hs) as ((_ & _ & _ & Hc & _ & Hst & _) & Hw & _). rewrite Hc, Hst, Hw. exact H.
+    + inversion Hs; subst; cbn; exact H.
+    + inversion Hs; subst; cbn; exact H.
+    + inversion Hs; subst; cbn; exact H.
+Qed.
+
+(* ---------------------------------------------------------------- *)
+(* C12: when a Stop call and Run have both returned the server is quiet *)
+
+Definition conn_quiet (cfg : config) (c : conn) : Prop :=
+  sock_closed c = true /\ inflight c = 0 /\ hs c = [] /\
+  onclose c = (if has_onclose cfg then 1 else 0) /\
+  match pc c with CTeardown [] | CDone => True | _ => False end.
+
+Lemma pending_zero cs : pending cs = 0 -> Forall (fun c => wgdone c = true) cs.
+Proof.
+  unfold pending. induction cs as [|x r IH]; intros H; [constructor|].
+  cbn in H. unfold not_done at 1 in H. destruct (wgdone x) eqn:E; cbn in H; [|discriminate].
+  constructor; [exact E|apply IH; exact H].
+Qed.
+
+(* with connWg.Done last, a connection that has released the wait group has
+   done everything else *)
+Lemma wgdone_last_quiet cfg c : wg_last cfg = true -> td_inv cfg c -> wgdone c = true -> conn_quiet cfg c.
+Proof.
+  intros Hl (Hsuf & Hoc & Hsc & Hwg & Hwait & Hinf & _) Hw. unfold conn_quiet, done_of, teardown_of in *.
+  rewrite Hl in *. rewrite Hw in Hwg.
+  destruct (pc c) as [| | |k sc|todo|]; cbn in Hwg; try discriminate.
+  - destruct Hsuf as [Hsuf Hlen].
+    destruct todo as [|a [|b [|c0 [|d r]]]]; cbn in *; try discriminate; try lia.
+    rewrite Hoc, Hsc. rewrite andb_true_r. specialize (Hwait eq_refl). rewrite Hwait in Hinf.
+    repeat split; auto. destruct (hs c); [reflexivity|discriminate].
+  - cbn in *. rewrite Hoc, Hsc. rewrite andb_true_r. specialize (Hwait eq_refl). rewrite Hwait in Hinf.
+    repeat split; auto. destruct (hs c); [reflexivity|discriminate].
+Qed.
+
+Theorem quiescent_after_stop cfg s :
+  wg_last cfg = true -> add_before_accept cfg = true -> close_on_cancel cfg = true ->
+  reachable cfg s -> stopped s = true -> (exists e, run s = RRet e) ->
+  lst s <> Listening /\ port_bound s = false /\ Forall (conn_quiet cfg) (conns s).
+Proof.
+  intros Hl Haba Hcc Hr Hst [e He].
+  destruct (stopped_inv_reachable cfg s Haba Hr Hst) as [Hc Hw].
+  pose proof (wg_inv_reachable cfg s Hr) as Hwg. unfold wg_inv in Hwg. rewrite Haba, He, Hw in Hwg.
+  destruct (srv_inv_reachable cfg s Hr) as (P1 & _ & _ & _ & _ & _ & _ & _ & _ & K & _).
+  assert (lst s <> Listening) as Hnl.
+  { intros El. specialize (K Hcc Hc El). rewrite He in K. discriminate. }
+  split; [exact Hnl|]. split; [rewrite P1; destruct (lst s); congruence|].
+  pose proof (td_inv_reachable cfg s Hr) as Htd.
+  assert (pending (conns s) = 0) as Hp by lia.
+  pose proof (pending_zero _ Hp) as Hall.
+  rewrite Forall_forall in *. intros c Hin. apply wgdone_last_quiet; auto.
+Qed.
+
+(* the pinned teardown order: Stop returns with the socket open *)
+Lemma quiescent_pinned_refuted :
+  exists s, run_labels pinned_cfg init
+              [ECallRun true true; LRun; LRun; EConnect; LRun; LRun; LConn 0; LConn 0;
+               ESend 0 (IReq KNormal [HBarrier 1]); LConn 0; LConn 0; EClose 0; LConn 0; LConn 0;
+               ECallStop; LStop 0; LStop 0; LStop 0; LRun] = Some s /\
+            stopped s = true /\ run s = RRet false /\
+            exists c, nth_error (conns s) 0 = Some c /\ sock_closed c = false /\ onclose c = 0.
+Proof. eexists. split; [vm_compute; reflexivity|]. repeat split. eexists. repeat split. Qed.
+
+(* ---------------------------------------------------------------- *)
+(* Stop's pass: every connection is interrupted                        *)
+
+Definition intr_inv (cfg : config) (s : state) : Prop :=
+  stop_interrupts cfg = true -> existsb past_interrupt (stops s) = true ->
+  Forall (fun c => interrupted c = true) (conns s).
+
+Lemma conn_step_intr cfg s c c' e : conn_step cfg s c = Some (c', e) -> interrupted c' = interrupted c.
+Proof.
+  unfold conn_step. intros H.
+  destruct (pc c) as [| | |k sc|todo|].
+  - inversion H; reflexivity.
+  - destruct (cancelled s); [destruct (can_write c); [|discriminate]|]; inversion H; reflexivity.
+  - destruct (input c) as [|it rest]; [destruct (eof c || interrupted c); [|discriminate]; inversion H; reflexivity|].
+    destruct it as [k sc| |]; [destruct k; [| |destruct (has_unbind_route cfg)]|..]; inversion H; reflexivity.
+  - destruct sc as [|h rest]; [destruct k; inversion H; reflexivity|].
+    destruct (negb (hstep_enabled s c h)); [discriminate|].
+    destruct h; [|destruct (recovery cfg)|..]; inversion H; reflexivity.
+  - destruct todo as [|t rest]; [inversion H; reflexivity|].
+    destruct t; [|destruct (inflight c =? 0); [|discriminate]| |destruct (negb (has_onclose cfg)); [|destruct (onclose_held s); [discriminate|]]];
+      inversion H; reflexivity.
+  - discriminate.
+Qed.
+
+Lemma handler_step_intr cfg s c r c' e : handler_step cfg s c r = Some (c', e) -> interrupted c' = interrupted c.
+Proof.
+  unfold handler_step. intros H. destruct (take_handler r (hs c)) as [[sc others]|]; [|discriminate].
+  destruct sc as [|h rest]; [inversion H; reflexivity|].
+  destruct (negb (hstep_enabled s c h)); [discriminate|].
+  destruct h; [|destruct (recovery cfg && handler_rec cfg)|..]; inversion H; reflexivity.
+Qed.
+
+Lemma Forall_intr_update cs i c c' : Forall (fun c => interrupted c = true) cs -> nth_error cs i = Some c ->
+  interrupted c' = interrupted c -> Forall (fun c => interrupted c = true) (update_nth i (fun _ => c') cs).
+Proof.
+  intros HF Hn He. apply Forall_update_nth; [exact HF|]. intros x Hx Px. rewrite Hn in Hx. inversion Hx; subst. congruence.
+Qed.
+
+Theorem intr_inv_reachable cfg s : reachable cfg s -> intr_inv cfg s.
+Proof.
+  revert s. apply (invariant_reachable cfg (intr_inv cfg)).
+  - intros _ H. discriminate.
+  - intros s0 l s1 Hr0 H Hs. destruct (srv_inv_reachable cfg s0 Hr0) as (_ & _ & _ & _ & _ & _ & _ & _ & _ & _ & _ & K3).
+    unfold step in Hs. destruct (negb (alive s0)); [discriminate|].
+    unfold intr_inv in *. intros Hsi.
+    destruct l as [|si|ci|ci ri|v o| | |ci it|ci|ci b|b|b|].
+    + unfold run_step in Hs. destruct (run s0) as [|valid ok| | | |e] eqn:Er; try discriminate.
+      * destruct (negb valid); [inversion Hs; subst; cbn; exact (H Hsi)|].
+        destruct (stop_in_progress s0); [discriminate|]. destruct ok; inversion Hs; subst; cbn; exact (H Hsi).
+      * destruct (cancelled s0); [destruct (close_on_cancel cfg)|]; inversion Hs; subst; cbn; exact (H Hsi).
+      * destruct (lst s0); try (inversion Hs; subst; cbn; exact (H Hsi)).
+        destruct (accept_err s0); [inversion Hs; subst; cbn; exact (H Hsi)|].
+        destruct (backlog s0); [discriminate|inversion Hs; subst; cbn; exact (H Hsi)].
+      * inversion Hs; subst; cbn. intros Hp. apply Forall_app. split; [exact (H Hsi Hp)|].
+        constructor; [|constructor]. cbn. rewrite Hsi. cbn.
+        apply K3. clear -Hp. induction (stops s0) as [|p r IH]; [discriminate|]. cbn in *.
+        apply orb_true_iff in Hp. destruct Hp as [Hp|Hp]; [destruct p; try discriminate; reflexivity|].
+        rewrite (IH Hp). apply orb_true_r.
+    + unfold stop_step in Hs. destruct (nth_error (stops s0) si) as [p|] eqn:En; [|discriminate].
+      destruct p; try discriminate.
+      * destruct (lst s0); inversion Hs; subst; cbn; intros Hp;
+          (destruct (existsb_update_nth _ _ _ _ _ En Hp) as [G|G]; [discriminate|exact (H Hsi G)]).
+      * inversion Hs; subst; cbn. rewrite Hsi. intros Hp.
+        destruct (existsb_update_nth _ _ _ _ _ En Hp) as [G|G]; [discriminate|exact (H Hsi G)].
+      * inversion Hs; subst; cbn. intros _. unfold interrupt_all. rewrite Forall_forall. intros x Hx.
+        apply in_map_iff in Hx. destruct Hx as (y & <- & _). reflexivity.
+      * destruct (connwg s0 =? 0); [|discriminate]. inversion Hs; subst; cbn. intros _.
+        apply (H Hsi). eapply existsb_nth; [exact En|reflexivity].
+    + destruct (with_conn_frame _ _ _ _ Hs) as [(_ & _ & _ & _ & _ & Hst & _) (c & c' & e & Hn & Hf & Hc & _)].
+      rewrite Hst, Hc. intros Hp. eapply Forall_intr_update; [exact (H Hsi Hp)|exact Hn|eapply conn_step_intr; eauto].
+    + destruct (with_conn_frame _ _ _ _ Hs) as [(_ & _ & _ & _ & _ & Hst & _) (c & c' & e & Hn & Hf & Hc & _)].
+      rewrite Hst, Hc. intros Hp. eapply Forall_intr_update; [exact (H Hsi Hp)|exact Hn|eapply handler_step_intr; eauto].
+    + destruct (run s0); try discriminate. inversion Hs; subst; cbn; exact (H Hsi).
+    + inversion Hs; subst; cbn. intros Hp. rewrite existsb_app in Hp. cbn in Hp. rewrite orb_false_r in Hp. exact (H Hsi Hp).
+    + destruct (lst s0); try discriminate. inversion Hs; subst; cbn; exact (H Hsi).
+    + destruct (upd_conn_env_frame _ _ _ _ Hs) as ((_ & _ & _ & _ & _ & Hst & _) & _ & _ & Hc). rewrite Hst, Hc.
+      intros Hp. apply Forall_update_nth; [exact (H Hsi Hp)|]. intros x _ Px. exact Px.
+    + destruct (upd_conn_env_frame _ _ _ _ Hs) as ((_ & _ & _ & _ & _ & Hst & _) & _ & _ & Hc). rewrite Hst, Hc.
+      intros Hp. apply Forall_update_nth; [exact (H Hsi Hp)|]. intros x _ Px. exact Px.
+    + destruct (upd_conn_env_frame _ _ _ _ Hs) as ((_ & _ & _ & _ & _ & Hst & _) & _ & _ & Hc). rewrite Hst, Hc.
+      intros Hp. apply Forall_update_nth; [exact (H Hsi Hp)|]. intros x _ Px. exact Px.
+    + inversion Hs; subst; cbn; exact (H Hsi).
+    + inversion Hs; subst; cbn; exact (H Hsi).
+    + inversion Hs; subst; cbn; exact (H Hsi).
+Qed.
+
+(* ---------------------------------------------------------------- *)
+(* C11: after Stop nothing waits for a client                          *)
+
+Definition script_ok (s : state) (sc : list hstep) : Prop :=
+  forall b rest, sc = HBarrier b :: rest -> mem_nat b (released s) = true.
+
+(* user code is not holding anything: OnClose returns, and the next step of
+   every running handler script is not a barrier the test still holds *)
+Definition no_external_block (s : state) : Prop :=
+  onclose_held s = false /\
+  forall c, In c (conns s) ->
+    (forall r sc, In (r, sc) (hs c) -> script_ok s sc) /\
+    (forall k sc, pc c = CInline k sc -> script_ok s sc).
+
+Lemma hstep_enabled_intr s c h rest : interrupted c = true -> script_ok s (h :: rest) -> hstep_enabled s c h = true.
+Proof.
+  intros Hi Hok. destruct h; cbn.
+  - eapply Hok. reflexivity.
+  - reflexivity.
+  - unfold can_write. rewrite Hi. apply orb_true_iff. left. apply orb_true_r.
+  - destruct (input c) as [|[| |] ?]; rewrite ?Hi; reflexivity.
+Qed.
+
+Lemma conn_progress cfg s c :
+  td_inv cfg c -> wgdone c = false -> cancelled s = true -> interrupted c = true -> onclose_held s = false ->
+  (forall r sc, In (r, sc) (hs c) -> script_ok s sc) -> (forall k sc, pc c = CInline k sc -> script_ok s sc) ->
+  conn_step cfg s c <> None \/ exists r, handler_step cfg s c r <> None.
+Proof.
+  intros Htd Hw Hc Hi Hh Hsc Hin.
+  unfold conn_step. rewrite Hc, Hh.
+  destruct (pc c) as [| | |k sc|todo|] eqn:Epc.
+  - left. discriminate.
+  - left. unfold can_write. rewrite Hi. rewrite orb_true_r. cbn. discriminate.
+  - left. destruct (input c) as [|it rest]; [rewrite Hi, orb_true_r; discriminate|].
+    destruct it as [k sc| |]; [destruct k; [| |destruct (has_unbind_route cfg)]|..]; discriminate.
+  - left. destruct sc as [|h rest]; [destruct k; discriminate|].
+    rewrite (hstep_enabled_intr s c h rest Hi (Hin k (h :: rest) eq_refl)). cbn [negb].
+    destruct h; [|destruct (recovery cfg)|..]; discriminate.
+  - destruct todo as [|t rest]; [left; discriminate|].
+    destruct t.
+    + left. discriminate.
+    + destruct (inflight c =? 0) eqn:E0; [left; discriminate|]. right.
+      destruct Htd as (_ & _ & _ & _ & _ & Hinf & _). apply Nat.eqb_neq in E0. rewrite Hinf in E0.
+      destruct (hs c) as [|[r0 sc0] others] eqn:Eh; [cbn in E0; congruence|].
+      exists r0. unfold handler_step. rewrite Eh. cbn [take_handler]. rewrite Nat.eqb_refl.
+      destruct sc0 as [|h rest0]; [discriminate|].
+      assert (script_ok s (h :: rest0)) as Hok by (apply (Hsc r0); left; reflexivity).
+      rewrite (hstep_enabled_intr s c h rest0 Hi Hok). cbn [negb].
+      destruct h; [|destruct (recovery cfg && handler_rec cfg)|..]; discriminate.
+    + left. discriminate.
+    + left. destruct (negb (has_onclose cfg)); discriminate.
+  - exfalso. destruct Htd as (_ & _ & _ & Hwg & _). unfold done_of in Hwg. rewrite Epc in Hwg.
+    rewrite Hw in Hwg. destruct (teardown_of_cases cfg) as [E|E]; rewrite E in Hwg; discriminate.
+Qed.
+
+Lemma pending_pos cs : pending cs <> 0 -> exists i c, nth_error cs i = Some c /\ wgdone c = false.
+Proof.
+  unfold pending. induction cs as [|x r IH]; intros H; [cbn in H; congruence|].
+  cbn in H. unfold not_done at 1 in H. destruct (wgdone x) eqn:E; cbn in H.
+  - destruct (IH H) as (i & c & Hn & Hw). exists (S i), c. auto.
+  - exists 0, x. auto.
+Qed.
+
+Theorem stop_progress cfg s :
+  stop_interrupts cfg = true -> add_before_accept cfg = true ->
+  reachable cfg s -> alive s = true ->
+  (exists i p, nth_error (stops s) i = Some p /\ p <> SRet) -> no_external_block s ->
+  exists l, internal l = true /\ step cfg s l <> None.
+Proof.
+  intros Hsi Haba Hr Hal (i & p & Hn & Hp) (Hheld & Hscripts).
+  destruct (srv_inv_reachable cfg s Hr) as (_ & _ & _ & _ & _ & _ & _ & _ & _ & _ & K2 & K3).
+  pose proof (wg_inv_reachable cfg s Hr) as Hwg.
+  pose proof (td_inv_reachable cfg s Hr) as Htd.
+  pose proof (intr_inv_reachable cfg s Hr Hsi) as Hintr.
+  unfold step. rewrite Hal. cbn [negb].
+  destruct p; try congruence.
+  - exists (LStop i). split; [reflexivity|]. unfold stop_step. rewrite Hn. destruct (lst s); discriminate.
+  - exists (LStop i). split; [reflexivity|]. unfold stop_step. rewrite Hn. discriminate.
+  - exists (LStop i). split; [reflexivity|]. unfold stop_step. rewrite Hn. discriminate.
+  - destruct (connwg s =? 0) eqn:E0.
+    + exists (LStop i). split; [reflexivity|]. unfold stop_step. rewrite Hn, E0. discriminate.
+    + apply Nat.eqb_neq in E0.
+      assert (stop_in_progress s = true) as Hsp by (unfold stop_in_progress; eapply existsb_nth; [exact Hn|reflexivity]).
+      assert (cancelled s = true) as Hc by (apply K3; eapply existsb_nth; [exact Hn|reflexivity]).
+      assert (Forall (fun c => interrupted c = true) (conns s)) as Hall
+          by (apply Hintr; eapply existsb_nth; [exact Hn|reflexivity]).
+      unfold wg_inv in Hwg. rewrite Haba in Hwg.
+      destruct (run s) eqn:Er;
+        try (assert (pending (conns s) <> 0) as Hpp by lia;
+             destruct (pending_pos _ Hpp) as (j & c & Hj & Hwd);
+             assert (In c (conns s)) as Hinc by (eapply nth_error_In; eauto);
+             rewrite Forall_forall in Htd, Hall;
+             destruct (Hscripts c Hinc) as [Hs1 Hs2];
+             destruct (conn_progress cfg s c (Htd c Hinc) Hwd Hc (Hall c Hinc) Hheld Hs1 Hs2) as [Hcs|[r Hhs]];
+             [exists (LConn j); split; [reflexivity|]; unfold with_conn; rewrite Hj;
+              destruct (conn_step cfg s c) as [[c' e]|]; [discriminate|congruence]
+             |exists (LHandler j r); split; [reflexivity|]; unfold with_conn; rewrite Hj;
+              destruct (handler_step cfg s c r) as [[c' e]|]; [discriminate|congruence]]).
+      * (* Run blocked in Accept: the listener is closed, Accept fails at once *)
+        exists LRun. split; [reflexivity|]. unfold run_step. rewrite Er.
+        specialize (K2 Hsp). destruct (lst s); try congruence; discriminate.
+      * exists LRun. split; [reflexivity|]. unfold run_step. rewrite Er. discriminate.
+Qed.
+
+(* the pinned Stop: one idle connection and Stop can never return without the client *)
+Lemma stop_progress_pinned_refuted :
+  exists s, run_labels pinned_cfg init
+              [ECallRun true true; LRun; LRun; EConnect; LRun; LRun; LConn 0; LConn 0;
+               ECallStop; LStop 0; LStop 0; LRun] = Some s /\
+            nth_error (stops s) 0 = Some SWait /\ length (stops s) = 1 /\ length (conns s) = 1 /\
+            (exists c, nth_error (conns s) 0 = Some c /\ hs c = []) /\
+            step pinned_cfg s (LStop 0) = None /\ step pinned_cfg s LRun = None /\
+            step pinned_cfg s (LConn 0) = None.
+Proof. eexists. split; [vm_compute; reflexivity|]. repeat split. eexists. split; reflexivity. Qed.
